@@ -20,6 +20,7 @@ type Replica struct {
 	Preempt int               `json:"preempt,omitempty"` // percent chance of a preemption at a shared site while such goroutines are alive
 	Procs   int               `json:"procs,omitempty"`   // what runtime.GOMAXPROCS(0) / NumCPU() report (0 = 2)
 	History bool              `json:"history,omitempty"` // run a prelude in the same process first: an older version of the tree loaded and rendered, failing renders, string evaluations
+	Soak    int               `json:"soak,omitempty"`    // with History: the prelude ends with this many repetitions of operations that panic inside textwire (the caller recovers, as net/http does) and of ordinary ones
 	Rate    int64             `json:"rate,omitempty"`    // simulated nanoseconds per step (0 = 1000): a slower or faster machine
 	Clock   int64             `json:"clock"`             // unix seconds of the simulated clock base
 	Rand    int64             `json:"rand"`              // seed of the simulated global math/rand stream
@@ -48,6 +49,8 @@ type Scenario struct {
 	Plan     []simrt.Preempt `json:"plan,omitempty"`
 	First    int             `json:"first,omitempty"`
 	EndCh    []int           `json:"endchoice,omitempty"`
+	Quantum  int64           `json:"quantum,omitempty"` // C15: round-robin time slice in steps (0 = run to completion unless preempted)
+	NoFD     bool            `json:"nofd,omitempty"`    // C15: during the concurrent phase the process is out of file descriptors
 	Replicas []Replica       `json:"replicas,omitempty"`
 	FSFaults []FSFault       `json:"fsfaults,omitempty"`
 	Parts    []string        `json:"parts,omitempty"` // string scenarios: top-level pieces of Ops[0].Src
